@@ -6,6 +6,7 @@ import (
 	"errors"
 	"fmt"
 	"math/rand"
+	"os/exec"
 	"sort"
 	"strings"
 	"sync"
@@ -56,58 +57,37 @@ func abbreviate(cmds [][]string) [][]string {
 	return out
 }
 
-var errPrefixTimeout = errors.New("timeout waiting for the replies of the commands completed by a segment")
+var errPrefixTimeout = errors.New("timeout: the reply stream did not end within the i/o timeout")
 
-// runSegmented sends the stream cut at the given offsets (ascending), waiting
-// after each segment for the replies of the commands that segment completed,
-// then half-closes and reads the reply stream to its end. It returns the
-// canonical replies.
-func runSegmented(addr string, s *stream, cuts []int) (canon []string, rest []byte, err error) {
-	c, err := wire.Dial(addr, ioTimeout)
-	if err != nil {
-		return nil, nil, fmt.Errorf("dial: %w", err)
+const lateWait = 2 * time.Second
+
+// runner drives segmented sends; for RESP/telnet/native it reuses one
+// connection for many runs (each stream starts with FLUSHDB, restores the
+// output mode and ends with a sentinel ECHO, so runs are independent), for HTTP
+// every run is a connection.
+type runner struct {
+	addr string
+	c    *wire.Conn
+	late int64
+}
+
+func (r *runner) drop() {
+	if r.c != nil {
+		r.c.Close()
+		r.c = nil
 	}
-	defer c.Close()
-	pos := 0
-	got := 0
-	for _, cut := range cuts {
-		if cut <= pos || cut >= len(s.Bytes) {
-			continue
-		}
-		if err := c.Write(s.Bytes[pos:cut]); err != nil {
-			return canon, nil, fmt.Errorf("write: %w", err)
-		}
-		pos = cut
-		want := s.completedBy(cut)
-		for got < want {
-			f, err := c.Next(s.Proto, ioTimeout)
-			if err != nil {
-				if wire.IsTimeout(err) {
-					return canon, c.Buf, errPrefixTimeout
-				}
-				if errors.Is(err, wire.ErrMalformed) {
-					return append(canon, "!malformed:"+err.Error()), c.Buf, nil
-				}
-				// connection closed early: whatever arrived is the reply stream
-				fr, rest, _ := wire.SplitAll(s.Proto, c.Buf)
-				for _, f := range fr {
-					canon = append(canon, wire.Canon(s.Proto, f))
-				}
-				return canon, rest, nil
-			}
-			canon = append(canon, wire.Canon(s.Proto, f))
-			got++
-		}
-	}
-	if err := c.Write(s.Bytes[pos:]); err != nil {
-		// the server may already have closed (never for well-formed streams)
-		return canon, nil, fmt.Errorf("write: %w", err)
-	}
+}
+
+// finish half-closes, reads to EOF and returns the canonical form of everything
+// still unread; the connection is gone afterwards.
+func (r *runner) finish(p wire.Proto, canon []string) ([]string, []byte, error) {
+	c := r.c
+	defer r.drop()
 	c.CloseWrite()
 	to, rerr := c.ReadToEOF(ioTimeout)
-	fr, rest, ferr := wire.SplitAll(s.Proto, c.Buf)
+	fr, rest, ferr := wire.SplitAll(p, c.Buf)
 	for _, f := range fr {
-		canon = append(canon, wire.Canon(s.Proto, f))
+		canon = append(canon, wire.Canon(p, f))
 	}
 	if ferr != nil && errors.Is(ferr, wire.ErrMalformed) {
 		canon = append(canon, "!malformed:"+ferr.Error())
@@ -119,6 +99,111 @@ func runSegmented(addr string, s *stream, cuts []int) (canon []string, rest []by
 		return canon, rest, fmt.Errorf("read: %w", rerr)
 	}
 	return canon, rest, nil
+}
+
+// closeClean ends a reused connection and returns any bytes the server sent
+// beyond the replies already consumed.
+func (r *runner) closeClean(p wire.Proto) []byte {
+	if r.c == nil {
+		return nil
+	}
+	c := r.c
+	defer r.drop()
+	c.CloseWrite()
+	c.ReadToEOF(ioTimeout)
+	return append([]byte(nil), c.Buf...)
+}
+
+// run sends the stream cut at the given offsets (ascending), waiting after each
+// segment for the replies of the commands that segment completed, and returns
+// the canonical replies. Timeouts while waiting are not verdicts: the run then
+// half-closes and judges the complete reply stream at EOF.
+func (r *runner) run(s *stream, cuts []int) (canon []string, rest []byte, err error) {
+	if r.c == nil {
+		c, err := wire.Dial(r.addr, ioTimeout)
+		if err != nil {
+			return nil, nil, fmt.Errorf("dial: %w", err)
+		}
+		r.c = c
+	}
+	c := r.c
+	p := s.Proto
+	reuse := p == wire.RESP || p == wire.Telnet || p == wire.Native
+	pos := 0
+	got := 0
+	// readUntil consumes frames until 'want' replies were seen; false = fall back to EOF
+	readUntil := func(want int) (bool, error) {
+		for got < want {
+			f, err := c.Next(p, lateWait)
+			if err != nil {
+				if wire.IsTimeout(err) {
+					r.late++
+					return false, nil
+				}
+				if errors.Is(err, wire.ErrMalformed) {
+					return false, nil
+				}
+				return false, err // closed early
+			}
+			canon = append(canon, wire.Canon(p, f))
+			got++
+		}
+		return true, nil
+	}
+	fallback := false
+	for _, cut := range cuts {
+		if cut <= pos || cut >= len(s.Bytes) {
+			continue
+		}
+		if err := c.Write(s.Bytes[pos:cut]); err != nil {
+			r.drop()
+			return canon, nil, fmt.Errorf("write: %w", err)
+		}
+		pos = cut
+		if fallback {
+			continue
+		}
+		ok, err := readUntil(s.completedBy(cut))
+		if err != nil {
+			// connection closed by the server before the stream was sent
+			canon2, rest, _ := r.finish(p, canon)
+			return canon2, rest, nil
+		}
+		if !ok {
+			fallback = true
+		}
+	}
+	if err := c.Write(s.Bytes[pos:]); err != nil {
+		canon2, rest, _ := r.finish(p, canon)
+		if len(canon2) > 0 {
+			return canon2, rest, nil
+		}
+		return canon, nil, fmt.Errorf("write: %w", err)
+	}
+	if reuse && !fallback {
+		ok, err := readUntil(len(s.Cmds))
+		if ok && err == nil {
+			if len(c.Buf) > 0 {
+				// more bytes than replies: collect them all
+				return r.finish(p, canon)
+			}
+			return canon, nil, nil
+		}
+	}
+	return r.finish(p, canon)
+}
+
+// runSegmented is a single run on its own connection.
+func runSegmented(addr string, s *stream, cuts []int) ([]string, []byte, error) {
+	r := &runner{addr: addr}
+	defer r.drop()
+	canon, rest, err := r.run(s, cuts)
+	if err == nil && r.c != nil {
+		if extra := r.closeClean(s.Proto); len(extra) > 0 {
+			rest = append(rest, extra...)
+		}
+	}
+	return canon, rest, err
 }
 
 func firstDiff(a, b []string) int {
@@ -174,6 +259,21 @@ func Run(ctx *core.Ctx) {
 
 func (ck *checker) startServer() *srv.Server {
 	s, err := srv.Start(srv.Opts{Bin: ck.bin})
+	if err != nil {
+		ck.ctx.Fatal("start server: %v", err)
+	}
+	return s
+}
+
+// startCapped starts a server whose address space is limited (prlimit), so that a
+// request that allocates without bound ends as an out-of-memory crash of the
+// child instead of exhausting the machine.
+func (ck *checker) startCapped() *srv.Server {
+	o := srv.Opts{Bin: ck.bin}
+	if _, err := exec.LookPath("prlimit"); err == nil {
+		o.Wrapper = []string{"prlimit", "--as=6442450944"}
+	}
+	s, err := srv.Start(o)
 	if err != nil {
 		ck.ctx.Fatal("start server: %v", err)
 	}
@@ -322,18 +422,24 @@ func (ck *checker) partA() {
 			defer wg.Done()
 			s := ck.startServer()
 			defer func() { s.Kill9() }()
+			r := &runner{addr: s.Addr()}
 			for j := range jobc {
 				if ctx.Violations() >= 25 {
 					aborted.Store(true)
 					continue
 				}
 				for _, cuts := range j.cuts {
-					ok := ck.compareOne(&s, j.s, j.mode, cuts)
+					ok := ck.compareOne(&s, r, j.s, j.mode, cuts)
 					if j.mode == "2way" && ok {
 						done2way.Add(1)
 					}
 				}
+				if extra := r.closeClean(j.s.Proto); len(extra) > 0 {
+					ck.report("seg-extra:"+j.s.Proto.String(), fmt.Sprintf("stream %s (%s cuts): %d bytes beyond the replies to the commands sent: %q", j.s.ID, j.mode, len(extra), clip(string(extra))),
+						map[string]any{"stream": j.s.ID, "commands": abbreviate(j.s.Cmds), "extra": clip(string(extra))})
+				}
 			}
+			ctx.Count("late_reply_waits", r.late)
 		}(w)
 	}
 	wg.Wait()
@@ -356,11 +462,11 @@ func clipAll(a []string) []string {
 
 // compareOne runs one segmentation and compares with the baseline. It returns
 // true when the case was executed to a verdict.
-func (ck *checker) compareOne(sp **srv.Server, st *stream, mode string, cuts []int) bool {
+func (ck *checker) compareOne(sp **srv.Server, r *runner, st *stream, mode string, cuts []int) bool {
 	ctx := ck.ctx
-	s := *sp
 	for attempt := 0; ; attempt++ {
-		got, rest, err := runSegmented(s.Addr(), st, cuts)
+		s := *sp
+		got, rest, err := r.run(st, cuts)
 		descr := func() string {
 			if len(cuts) > 12 {
 				return fmt.Sprintf("%s %d cuts", mode, len(cuts))
@@ -382,7 +488,9 @@ func (ck *checker) compareOne(sp **srv.Server, st *stream, mode string, cuts []i
 			ck.report(crashKey(site), fmt.Sprintf("server died on stream %s %s: %s", st.ID, descr(), site),
 				map[string]any{"stream": st.ID, "commands": abbreviate(st.Cmds), "cuts": cutsForReplay(cuts), "stderr": s.StderrTail(3000)})
 			ctx.Count("crashes", 1)
+			r.drop()
 			*sp = ck.startServer()
+			r.addr = (*sp).Addr()
 			return true
 		}
 		if err == errPrefixTimeout {
@@ -396,14 +504,17 @@ func (ck *checker) compareOne(sp **srv.Server, st *stream, mode string, cuts []i
 					map[string]any{"stream": st.ID, "commands": abbreviate(st.Cmds), "cuts": cutsForReplay(cuts), "got": clipAll(got)})
 				s.Kill9()
 				*sp = ck.startServer()
+				r.addr = (*sp).Addr()
 				return true
 			}
 			ctx.Inconclusive("segmented send timed out and the server does not answer PING")
 			s.Kill9()
 			*sp = ck.startServer()
+			r.addr = (*sp).Addr()
 			return false
 		}
 		if err != nil {
+			r.drop()
 			if attempt < 2 {
 				time.Sleep(20 * time.Millisecond)
 				continue
@@ -435,6 +546,7 @@ func (ck *checker) compareOne(sp **srv.Server, st *stream, mode string, cuts []i
 		if d < 0 && len(rest) == 0 {
 			return true
 		}
+		r.drop() // do not let a broken run leak into the next one
 		exp, g := "<none>", "<none>"
 		if d >= 0 && d < len(st.Base) {
 			exp = st.Base[d]
